@@ -568,6 +568,45 @@ func replayAnyF(args map[string]string) error {
 			{"array", func(x any) any { return [1]any{x} }, `[`, "]", func() any { return new([1]any) }},
 			{"ptrfield", func(x any) any { return &holder{x} }, `{"F":`, "}", func() any { return new(*holder) }},
 		}
+		// a non-nil pointer to an empty value in an omitempty field: omitted, unless a function
+		// for the pointee's type writes something that is not empty
+		if mk := map[string]func() any{
+			"string": func() any {
+				x := ""
+				return struct {
+					F *string `json:",omitempty"`
+				}{&x}
+			},
+			"strings": func() any {
+				x := []string{}
+				return struct {
+					F *[]string `json:",omitempty"`
+				}{&x}
+			},
+			"map": func() any {
+				x := map[string]any{}
+				return struct {
+					F *map[string]any `json:",omitempty"`
+				}{&x}
+			},
+		}[vk]; mk != nil {
+			var log []int
+			var ms []*jsonv2.Marshalers
+			for i, k := range kinds {
+				m, _ := anyFuncOf(k, i+1, &log)
+				ms = append(ms, m)
+			}
+			evals.Add(1)
+			got, merr := jsonv2.Marshal(mk(), jsonv2.WithMarshalers(jsonv2.JoinMarshalers(ms...)))
+			want := `{}`
+			if winner > 0 {
+				want = fmt.Sprintf(`{"F":"f%d"}`, winner)
+			}
+			if merr != nil || string(got) != want {
+				out.put(map[string]any{"prop": "C17", "family": "anyf", "case": rec, "dir": "replay", "direction": "marshal", "position": "omitempty-pointer-field",
+					"why": "output", "got": string(got) + fmt.Sprint(" err=", merr), "want": want, "calls": log})
+			}
+		}
 		for _, w := range wraps {
 			var log []int
 			var ms []*jsonv2.Marshalers
